@@ -15,7 +15,8 @@ let cbkind_of = function
 let cbkind_str = function CbEval -> "eval" | CbStart -> "start" | CbStop -> "stop" | CbEvt -> "evt"
 let mstate_num = function MIdle -> 1 | MRunning -> 2 | MPaused -> 4 | MStopped -> 8 | MZombie -> 16
 
-let call_of = function
+let rec call_of = function
+  | "foreign" :: own :: rest -> CForeign (b own, call_of rest)
   | ["ctxreg"; p] -> CCtxReg (b p) | ["ctxdereg"] -> CCtxDereg | ["finalize"] -> CCtxFinalize
   | ["loop"] -> CCtxLoop | ["dispatch"] -> CCtxDispatch | ["quit"; c] -> CCtxQuit (ni c)
   | ["ctxlen"] -> CCtxLen | ["stats"] -> CCtxStats | ["settick"; ns] -> CCtxSetTick (ni ns)
@@ -44,7 +45,7 @@ let call_of = function
 let call_names = [ "?"; "ctxreg"; "ctxdereg"; "finalize"; "loop"; "dispatch"; "quit"; "ctxlen"; "stats"; "settick"; "reg"; "dereg"; "start";
   "pause"; "resume"; "stop"; "state"; "ref"; "unref"; "become"; "unbecome"; "stash"; "unstash"; "evtref"; "evtunref"; "batchsize";
   "batchtimeout"; "tb"; "sub"; "unsub"; "tell"; "publish"; "broadcast"; "pill"; "srcreg"; "srcdereg"; "srclen"; "fdwrite"; "fire";
-  "firetick"; "errno"; "live"; "tellmany" ]
+  "firetick"; "errno"; "live"; "tellmany"; "foreign" ]
 
 let desc_str d =
   Printf.sprintf "%d:%d:%d:%d:%d:%d:%d" (int_of_nat d.d_kind) (int_of_n d.d_key) (int_of_n d.d_topic) (int_of_n d.d_data)
